@@ -530,6 +530,15 @@ def run(chk):
         elif m < 0.25: args.append(I)
         scases.append((f, args))
     cases += [("specbind", [f] + a) for f, a in scases]
+    # resolve_bind: substitution of a binding (also inside function types)
+    rcases = []
+    for _ in range(1500 if quick else 20000):
+        t = rand_type(rng, rng.choice([1, 2, 3]), R_ATOMS_WIDE[:4], False, False, ["T", "U"])
+        kv = []
+        for gname in rng.sample(["T", "U"], rng.choice([0, 1, 2])):
+            kv += [G(gname), rand_type(rng, 1, S_ATOMS, True, False, [])]
+        rcases.append(("resolve", [t] + kv))
+    cases += rcases
 
     impl, model = run_unit(chk, cases)
     for (op, ts), gi, gm in zip(cases, impl, model):
@@ -560,6 +569,8 @@ def run(chk):
             chk.count("unit:common:" + ("some" if gi != "none" else "none"))
         elif op == "eq":
             want = str(Oracle.identical(ts[0], ts[1])).lower()
+        elif op == "resolve":
+            want = tstr(substitute(ts[0], {ts[i][1]: ts[i + 1] for i in range(1, len(ts), 2)}))
         if gi.startswith("panic") or gi.startswith("bad"):
             chk.violation(f"unit:{op}:panic", f"{op} on {[tstr(t) for t in ts]} -> {gi}", replay)
             continue
@@ -638,12 +649,13 @@ def run(chk):
     call_cases = []
     for _ in range(500 if quick else 8000):
         n = rng.choice([0, 1, 1, 2, 2, 3])
-        ps = [rand_type(rng, rng.choice([0, 1]), R_ATOMS_WIDE[:4], False, False, []) for _ in range(n)]
-        ret = rand_type(rng, 1, R_ATOMS_WIDE[:4], False, False, [])
         as_func = rng.random() < 0.5
+        gn = [] if as_func else ["X", "Y"]
+        ps = [rand_type(rng, rng.choice([0, 1]), R_ATOMS_WIDE[:4], False, False, gn) for _ in range(n)]
+        ret = rand_type(rng, 1, R_ATOMS_WIDE[:4], False, False, [])
         nreq = rng.randint(0, n) if as_func else n
         callee = FUNC(None, ps, nreq, ret) if as_func else CALL(ps, ret)
-        args = [p if rng.random() < 0.8 else rand_type(rng, 1, S_ATOMS, True, False, []) for p in ps]
+        args = [p if rng.random() < 0.8 else rand_type(rng, 1, S_ATOMS, True, False, gn[:1]) for p in ps]
         m = rng.random()
         if m < 0.2 and args: args.pop()
         elif m < 0.35: args.append(rng.choice([I, S]))
@@ -670,7 +682,9 @@ def run(chk):
         chk.evaluations += 1
         ps = callee[1] if callee[0] == "k" else callee[2]
         lo = len(ps) if callee[0] == "k" else callee[3]
-        want = lo <= len(args) <= len(ps) and Oracle.assign_all(list(zip(ps, args))) is not None
+        env = Oracle.assign_all(list(zip(ps, args)))
+        # the parameter types of a function-typed value are fixed: nothing may be bound (generics there are rigid)
+        want = lo <= len(args) <= len(ps) and env is not None and (callee[0] == "x" or not env)
         c = resp.get("compile")
         if c is None:
             chk.violation("lang:call:compiler-panic", f"compiler panicked on {p!r}: {json.dumps(resp)[:300]}", {"op": "run", "src": p, "compile_only": True})
@@ -702,6 +716,16 @@ def run(chk):
                       extra_cov={"positions": POSITIONS})
 
 
+def substitute(t, env):
+    k = t[0]
+    if k == "g": return env.get(t[1], t)
+    if k == "t": return ("t", tuple(substitute(c, env) for c in t[1]))
+    if k == "n": return ("n", t[1], tuple(substitute(c, env) for c in t[2]))
+    if k == "c": return ("c", t[1], t[2], tuple(substitute(c, env) for c in t[3]))
+    if k == "k": return ("k", tuple(substitute(c, env) for c in t[1]), substitute(t[2], env))
+    return t
+
+
 def rename(t, ren):
     k = t[0]
     if k == "g": return ("g", ren.get(t[1], t[1]))
@@ -730,6 +754,9 @@ WITNESSES = [
     ("generic-call-unknown-arg", 'let g: Generator<int> = [].to_generator();', True),
     ("generic-call-unknown-arg-2", 'let o: Optional<Sequence<str>> = some(error("x"));', True),
     ("generic-call-recursive", 'fn f<T>(x: T, n: int)->Sequence<T>{ (n == 0).if([x], f(x, n-1)) } let r: Sequence<int> = f(1, 2);', True),
+    ("callable-rigid-generic", 'fn ap<T,U>(x:T, f:(U)->(int))->int{f(x)}', False),
+    ("callable-rigid-generic-ok", 'fn ap<T>(x:T, f:(T)->(int))->int{f(x)} let r = ap("s", (a: str)->{1});', True),
+    ("resolve-inside-function-type", 'fn mk<T>(x:T)->(T)->(T){ (y:T)->{y} } let f: (int)->(int) = mk(1);', True),
     ("book-apply-twice", 'fn apply_twice(f: (int) -> (int), x: int) -> int { f(f(x)) } fn add_one(x: int) -> int { x + 1 } '
      'let x = apply_twice(add_one, 10);', True),
 ]
